@@ -195,7 +195,13 @@ def rule_once(R):
     bad = None
     n = 0
     for lf in leaves:
-        if lf["kind"] == "return" and is_deliver(f, ret_value_on_path(hb, lf["path"])):
+        if lf["kind"] != "return":
+            continue
+        rv_ = ret_value_on_path(hb, lf["path"])
+        # a verdict that is not a constant on this path (`Ok(!duplicate && reason.success())`) may be "deliver"
+        maybe = rv_ is not None and rv_[0] == "agg" and rv_[3] == "Ok" and rv_[5] and deliver_label(f) is True \
+            and peel(rv_[5][0])[0] not in ("const", "agg")
+        if is_deliver(f, rv_) or maybe:
             n += 1
             if not lf["marked"]:
                 bad = lf
